@@ -72,7 +72,7 @@ theorem C15_incomplete_never_fails (f : Nat) (hf : f = idx_source_text_incomplet
     cases n with
     | zero => simp [evalCall, NotErr]
     | succ m =>
-      rw [evalCall_fresh grammar inp m f 0 {} st.init (find_clear _ _) hs.2]
+      rw [evalCall_fresh grammar inp m f 0 {} st.init (find_clear st.memo _) hs.2]
       exact (neAll grammar inp prodMarks marks_ok m).eval _ 0 {} st.init (invP_init _ st) hs.1
 
 /-- the tree of incomplete mode losslessly covers a prefix of the text (instance of C01) -/
@@ -208,8 +208,8 @@ theorem C15_strict_implies_equal (fs fi : Nat)
     cases n with
     | zero => simp [evalCall] at h
     | succ m =>
-      have hs := evalCall_fresh grammar inp m fs 0 {} st.init (find_clear _ _) hrs
-      have hi' := evalCall_fresh grammar inp m fi 0 {} st.init (find_clear _ _) hri
+      have hs := evalCall_fresh grammar inp m fs 0 {} st.init (find_clear st.memo _) hrs
+      have hi' := evalCall_fresh grammar inp m fi 0 {} st.init (find_clear st.memo _) hri
       rw [h] at hs
       rw [hi']
       rw [hbs] at hs
